@@ -54,6 +54,7 @@ PARTS = [
     Atoms(),
     Raw('use vstd::prelude::*;\nuse vstd::string::*;\nuse vstd::slice::*;\nverus! {'),
     Prelude('xser.prelude.rs'),
+    Prelude('nsscope.prelude.rs'),
     Item(TB, 'struct', 'NamespaceMap', rewrites=(Rewrite('R-vis', r'(?m)^(\s+)scope:', r'\1pub scope:'),)),
     nm('empty'), nm('get'), nm('insert'),
     Item(F, 'struct', 'NamespaceMapStack'),
